@@ -5,6 +5,8 @@
 //	                SSA (after the frontend and after the SSA passes). One JSON line per program.
 //	-mode behave  : cycle shapes x causes x arrival moments on one engine (see behave.go).
 //	-mode word    : the closed-word state machine of a real module instance under sequences of causes.
+//	-mode hostrec : host <-> guest recursion shapes x causes x arrival moments on one engine (see hostrec.go).
+//	-mode probe   : the call-entry probe on both engines (see hostrec.go).
 package main
 
 import (
@@ -97,6 +99,9 @@ func runStruct(seed uint64, n int, out *c.Out) {
 	}
 	for _, sh := range shapes() {
 		emit("shape:"+sh.Name, sh.P.Coq(), sh.P.Encode(), true)
+	}
+	for _, sh := range hostShapes() {
+		emit("hshape:"+sh.Name, sh.P.Coq(), sh.P.Encode(), true)
 	}
 	// the same source without close-on-context-done: no checks may appear (the flag is what inserts them)
 	emit("shape:simple_loop/off", "", shapes()[0].P.Encode(), false)
@@ -235,6 +240,17 @@ func main() {
 		runStruct(*seed, *n, out)
 	case "word":
 		runWord(*seed, *n, out)
+	case "probe":
+		runProbe(out)
+	case "hostrec":
+		if *list {
+			for i, hc := range hostCases(*quick) {
+				out.Emit(map[string]any{"idx": i, "shape": hc.sh.Name, "cause": hc.cause, "arrival": hc.arrival})
+			}
+			return
+		}
+		causeDelay = time.Duration(*delayMs) * time.Millisecond
+		runHostrec(*engine, *quick, *from, *only, time.Duration(*boundMs)*time.Millisecond, out)
 	case "behave":
 		if *list {
 			for i, bc := range behaviourCases(*quick) {
